@@ -96,6 +96,7 @@ type interpreter struct {
 	inInit             bool
 	depth              int
 	bindInit           value
+	hangSite           string
 }
 
 type deferred struct {
@@ -576,6 +577,9 @@ func runFrame(fr *frame) {
 		if _, ok := fr.panic.(pathAbort); ok {
 			panic(fr.panic) // engine control flow: do not run target defers
 		}
+		if _, ok := fr.panic.(stackExhaustion); ok {
+			panic(fr.panic) // a real stack overflow is fatal: no defers, no recover
+		}
 		if fr.i.panicSite == "" {
 			fr.i.panicSite = fr.fn.String()
 			if fr.curInstr != nil {
@@ -608,6 +612,7 @@ func runFrame(fr *frame) {
 			if ps := fr.i.ps; ps != nil {
 				ps.steps++
 				if ps.steps > ps.maxSteps {
+					fr.i.hangSite = fr.fn.String()
 					panic(pathAbort{"step budget exceeded"})
 				}
 			}
